@@ -327,7 +327,7 @@ class Metadata(CbMixin, ProgMixin):
                 path = Path(os.path.join(*partials))
                 full = Path(os.path.join(path, key))
                 length = val[""]["length"]
-                root = val[""]["pieces root"]
+                root = val[""].get("pieces root")
                 self.files.append({
                     "path": path,
                     "full": full,
